@@ -214,7 +214,8 @@ func main() {
 							sites = append(sites, st)
 						} else if !pkgNames[base.Name] && allFieldNames[sel.Sel.Name] && isPointerScalarName(schema, sel.Sel.Name) {
 							// a dereference of something that looks like a protobuf field through an unknown base
-							fmt.Fprintf(os.Stderr, "unknown-base deref %s.%s at %v\n", base.Name, sel.Sel.Name, fset.Position(s.Pos())); sites = append(sites, site{fn: 9})
+							fmt.Fprintf(os.Stderr, "unknown-base deref %s.%s at %v\n", base.Name, sel.Sel.Name, fset.Position(s.Pos()))
+							sites = append(sites, site{fn: 9})
 						}
 					}
 				}
